@@ -51,9 +51,9 @@ def main():
         "hooks": {
             "guard": "tablegen_lsp_verif",
             "enable": "RUSTFLAGS='--cfg tablegen_lsp_verif' (set by lib/vlib.py build_harness(hooks=True) for the harness build only; "
-                      "H2 = schedule points in the lsp server, H3 = SymbolMap op log)",
+                      "H2 = schedule points in the lsp server, H2b = snapshot drop point, H3 = SymbolMap op log)",
             "baseline_off_cmd": "cd /repo && cargo test --workspace --no-fail-fast --offline",
-            "source_commits": ["650b80f", "60bf7c0"],
+            "source_commits": ["650b80f", "60bf7c0", "61c39ff"],
             "add_only": True,
         },
         "engines": [{"name": "coq-models", "path": "/verif/coq",
